@@ -7,6 +7,7 @@ package sched
 
 import (
 	"fmt"
+	"runtime"
 	"sync/atomic"
 	"time"
 )
@@ -20,19 +21,21 @@ type PointInfo struct {
 
 // Exec is one controlled execution.
 type Exec struct {
-	n       int
-	done    []bool
-	wake    []chan struct{}
-	cur     int
-	prefix  []int
-	Choices []int
-	Points  []PointInfo
-	Obs     []string
-	fin     chan struct{}
-	Diverged string
-	Stalled  bool
-	progress int64
-	abandoned bool
+	n           int
+	done        []bool
+	wake        []chan struct{}
+	cur         int
+	prefix      []int
+	Choices     []int
+	Points      []PointInfo
+	Obs         []string
+	fin         chan struct{}
+	Diverged    string
+	Stalled     bool
+	Deadlocked  bool
+	blockStreak int
+	progress    int64
+	abandoned   bool
 }
 
 // active is the execution whose threads may call Point; nil outside executions.
@@ -45,7 +48,59 @@ func Point(loc string) {
 		return
 	}
 	atomic.AddInt64(&e.progress, 1)
+	e.blockStreak = 0
 	e.decide(true)
+}
+
+// Block is the block hook: the running thread cannot proceed (a shimmed lock is held by
+// another thread). Another thread must run; when control comes back the caller re-checks its
+// condition. If nobody else can run, or everybody keeps blocking, the execution is a deadlock.
+func Block() {
+	e := active
+	if e == nil || e.abandoned {
+		runtime.Gosched()
+		return
+	}
+	e.blockStreak++
+	others := 0
+	for t := 0; t < e.n; t++ {
+		if !e.done[t] && t != e.cur {
+			others++
+		}
+	}
+	if others == 0 || e.blockStreak > 4*e.n+4 {
+		e.Deadlocked = true
+		e.abandoned = true
+		close(e.fin)
+		select {} // park forever: this execution is over
+	}
+	// hand over to the next thread in canonical order; not a preemption (we cannot continue)
+	c := 0
+	if others > 1 {
+		if len(e.Choices) < len(e.prefix) {
+			c = e.prefix[len(e.Choices)]
+			if c >= others {
+				e.Diverged = fmt.Sprintf("replayed choice %d at a blocking point with %d other threads", c, others)
+				c = 0
+			}
+		}
+		e.Choices = append(e.Choices, c)
+		e.Points = append(e.Points, PointInfo{Enabled: others, RunningEnabled: false})
+	}
+	t := -1
+	for k := 0; k < e.n; k++ {
+		if !e.done[k] && k != e.cur {
+			if c == 0 {
+				t = k
+				break
+			}
+			c--
+		}
+	}
+	self := e.cur
+	e.cur = t
+	e.wake[t] <- struct{}{}
+	<-e.wake[self]
 }
 
 func (e *Exec) enabledFrom(running bool) []int {
@@ -191,7 +246,7 @@ func Run(bodies []func() string, prefix []int, stall time.Duration) *Exec {
 type Explorer struct {
 	Bound     int
 	Stall     time.Duration
-	Bodies    func() []func() string // fresh bodies per execution
+	Bodies    func() []func() string             // fresh bodies per execution
 	Check     func(x *Exec, schedule []int) bool // false: stop exploring
 	Schedules int64
 	Points    int64
